@@ -91,6 +91,25 @@ def result_of(resp):
     return ("ok" if c.get("ok") else "err", c.get("err", ""), resp.get("out", ""))
 
 
+def big_inputs():
+    n = 1 << 20
+    yaml_block = b"items:\n" + b"".join(b"  - name: item%06d\n    v: [1, 2, 3]\n" % i for i in range(n // 30))
+    yaml_flow = b"{k: [" + b", ".join(b"w%06d" % i for i in range(n // 8)) + b"]}\n"
+    js = b"[" + b",".join(b'{"i":%d}' % i for i in range(n // 11)) + b"]"
+    toml = b"".join(b'k%06d = "v"\n' % i for i in range(n // 13))
+    toml_edge = b"".join(b'k%06d = "v"\n' % i for i in range((2 << 20) // 14))[:(2 << 20) - 14 * 3]
+    toml_edge = toml_edge[:toml_edge.rfind(b"\n") + 1]
+    mpk = b"\xdd" + (n // 3).to_bytes(4, "big") + b"\x81\xa1i\x01" * (n // 3)
+    res = [yaml_block, yaml_flow, js, toml, toml_edge, mpk]
+    assert all((1 << 20) + 1000 < len(x) < (2 << 20) for x in res), [len(x) for x in res]
+    return res
+
+
+def short_hex(data):
+    h = data.hex() if data else "-"
+    return h if len(h) <= 40000 else h[:2000] + "...(%d bytes in all: one of c09.big_inputs())" % len(data)
+
+
 def run_detect_oracle(outcome, tier, seed):
     rng = random.Random(seed * 7919 + 9)
     inputs = corpus.inputs(seed, n_mut=1500 if tier == "thorough" else 350, n_rand=300 if tier == "thorough" else 60)
@@ -123,10 +142,16 @@ def run_detect_oracle(outcome, tier, seed):
             text = (head % pad) + 's = "' + body + '"\n'
             for n in (list(range(20, 72, 3 if tier == "quick" else 1))):
                 scheduled.append((text.encode(), {"kind": "fixed", "n": n}))
+    # single documents of more than 1 MiB (and TOML just under its 2 MiB detection limit): no trial may stop early
+    big = big_inputs()
+    for data in big:
+        scheduled.append((data, {"kind": "fixed", "n": 65536}))
     reqs, plan = [], []
     hx = lambda b: b.hex() if b else "-"
     for i, (data, fixed_sched) in enumerate(scheduled):
         targets = corpus.FORMATS if tier == "thorough" else [rng.choice(corpus.FORMATS)]
+        if len(data) > (1 << 20):
+            targets = ["json"]
         sched = fixed_sched or corpus.random_sched(rng)
         base = len(reqs)
         reqs.append({"id": len(reqs), "op": "detect", "input": hx(data), "mode": "slice"})
@@ -147,7 +172,7 @@ def run_detect_oracle(outcome, tier, seed):
             if "err" in d or d.get("panic") or d.get("crash") or d.get("hang"):
                 outcome.oracle_failures.append({
                     "what": "format detection failed although the input source reported no I/O error",
-                    "input_hex": hx(data), "mode": mode, "sched": sched, "observed": d})
+                    "input_hex": short_hex(data), "mode": mode, "sched": sched, "observed": d})
         fs, fr = ds.get("detected"), dr.get("detected")
         for to, t0 in tplans:
             rs, rr = result_of(resps[t0]), result_of(resps[t0 + 1])
@@ -158,14 +183,14 @@ def run_detect_oracle(outcome, tier, seed):
                 plan2.append((data, sched, to, f, fs, fr, rs, rr, e0))
             if fs is None and (rs[0] != "err" or rs[1] != UNABLE or rs[2] != "-"):
                 outcome.oracle_failures.append({"what": "no format detected but the outcome is not 'unable to detect input format'",
-                                                "input_hex": hx(data), "mode": "slice", "to": to, "observed": rs})
+                                                "input_hex": short_hex(data), "mode": "slice", "to": to, "observed": rs})
             if fr is None and (rr[0] != "err" or rr[1] != UNABLE or rr[2] != "-"):
                 outcome.oracle_failures.append({"what": "no format detected but the outcome is not 'unable to detect input format'",
-                                                "input_hex": hx(data), "mode": "reader", "sched": sched, "to": to, "observed": rr})
+                                                "input_hex": short_hex(data), "mode": "reader", "sched": sched, "to": to, "observed": rr})
             if (rs[0] == "ok" or rr[0] == "ok") and fs != fr:
                 outcome.oracle_failures.append({
                     "what": "an input that translates successfully is detected as %s from a slice and %s from a reader" % (fs, fr),
-                    "input_hex": hx(data), "sched": sched, "to": to})
+                    "input_hex": short_hex(data), "sched": sched, "to": to})
     resps2 = common.harness_batch(reqs2)
     nontrivial = set()
     for data, sched, to, f, fs, fr, rs, rr, e0 in plan2:
@@ -176,7 +201,7 @@ def run_detect_oracle(outcome, tier, seed):
             if r != es and r != er:
                 outcome.oracle_failures.append({
                     "what": "detected run differs from the explicit run for the detected format %s" % f,
-                    "input_hex": hx(data), "mode": mode, "sched": sched, "to": to,
+                    "input_hex": short_hex(data), "mode": mode, "sched": sched, "to": to,
                     "detected_run": r, "explicit_slice": es, "explicit_reader": er})
             nontrivial.add((data, to, mode))
     outcome.evaluations += len(reqs) + len(reqs2)
@@ -189,7 +214,7 @@ def run_detect_oracle(outcome, tier, seed):
                                          "detected_histogram": det_hist,
                                          "detected_vs_explicit_comparisons": len(plan2) * 2}
     for data, sched, base, tplans in plan[:2] + plan[len(plan) // 2:len(plan) // 2 + 1]:
-        outcome.add_sample({"input_hex": hx(data), "detected": resps[base].get("detected"), "sched": sched})
+        outcome.add_sample({"input_hex": short_hex(data), "detected": resps[base].get("detected"), "sched": sched})
 
 
 def run(outcome, tier, seed):
